@@ -629,7 +629,81 @@ def jspec_clean_prefix(got: list, want: list) -> bool:
     return all(any(g == w for w in it) for g in got)
 
 
+def run_spellings(case: dict) -> list[str]:
+    """Strings that differ only in their Unicode normal form (or letter case) are different
+    table entries: every id must resolve on a reader to the spelling the writer was given."""
+    import itertools  # noqa: PLC0415
+
+    from mc import drivers as DR  # noqa: PLC0415
+    from mc import jspec  # noqa: PLC0415
+    from mc import terms as T  # noqa: PLC0415
+    from mc.terms import I, L  # noqa: PLC0415
+
+    DR.ensure_rdflib_plugin()
+    api = case["api"]
+    nfc, nfd = "caf\u00e9", "cafe\u0301"
+    alpha = [(I("http://a/" + nfc), I("http://a/p"), I("http://a/" + nfd)),
+             (I("http://" + nfd + ".example/x"), I("http://a/p"), I("http://" + nfc + ".example/x")),
+             (I("http://a/" + nfd), I("http://a/P"), L("v", None, "http://d/" + nfc)),
+             (I("http://a/x"), I("http://a/p"), L("v", None, "http://d/" + nfd))]
+    fails = []
+    for preset in ((8, 4, 4), (8, 0, 2), (8, 2, 1)):
+        for k in (1, 2, 3):
+            for seq in itertools.product(alpha, repeat=k):
+                opts = DR.make_options("triple", preset, 250, True, generalized=False,
+                                       rdf_star=False)
+                try:
+                    data = (DR.g_write if api == "generic" else DR.r_write)(list(seq), "triple",
+                                                                            opts)
+                    _, per = jspec.decode_bytes(data)
+                    got = [T.norm_st(x) for x in jspec.statements(per)]
+                except jspec.SpecViolation as e:
+                    fails.append(f"{api} tables {preset}: spellings {list(seq)}: invalid: {e}")
+                    continue
+                except Exception:  # noqa: BLE001  (a refusal: more entries than a table holds)
+                    continue
+                if got != T.norm_seq(list(seq)):
+                    fails.append(f"{api} tables {preset}: {ascii(list(seq))} resolves on a reader "
+                                 f"to {ascii(got)}")
+                if len(fails) > 3:
+                    return fails
+    return fails
+
+
+def run_nested_datatypes(case: dict) -> list[str]:
+    """One RDF-star statement whose nested quoted triples name n datatypes, datatype table of
+    size m: refused, or every datatype id resolves to the datatype that was meant."""
+    from mc import drivers as DR  # noqa: PLC0415
+    from mc import jspec  # noqa: PLC0415
+    from mc import terms as T  # noqa: PLC0415
+    from mc.terms import I, L  # noqa: PLC0415
+
+    n, m = case["n"], case["m"]
+    inner = (L("1", None, "http://d/t1"), I("http://a/p"), L("2", None, "http://d/t2"))
+    for i in range(3, n + 1):
+        inner = (("T", *inner), I("http://a/p"), L(str(i), None, f"http://d/t{i}"))
+    seq = [(I("http://a/s"), I("http://a/p"), L("0", None, "http://d/t1")), inner]
+    opts = DR.make_options("triple", (16, 4, m), 250, True, generalized=True, rdf_star=True)
+    try:
+        data = DR.g_write(seq, "triple", opts)
+    except Exception:  # noqa: BLE001
+        return []
+    try:
+        _, per = jspec.decode_bytes(data)
+        got = [T.norm_st(x) for x in jspec.statements(per)]
+    except jspec.SpecViolation as e:
+        return [f"{n} datatypes in one nested statement, table {m}: accepted, invalid stream: {e}"]
+    if got != T.norm_seq(seq):
+        return [f"{n} datatypes in one nested statement, table {m}: accepted, a reader resolves "
+                f"it to {got[-1]}"]
+    return []
+
+
 def run_declared(case: dict) -> list[str]:
+    if case["rule"] == "spellings":
+        return run_spellings(case)
+    if case["rule"] == "nested-datatypes":
+        return run_nested_datatypes(case)
     if case["rule"] == "reflexive":
         return run_reflexive(case)
     if case["rule"] == "broken-source":
@@ -674,6 +748,12 @@ def shard4(job) -> dict:
         n = 0
     if rule == "no-options":
         case = {"layer": 4, "rule": rule, "n": 0, "api": n}
+        n = 0
+    if rule == "spellings":
+        case = {"layer": 4, "rule": rule, "n": 0, "api": n}
+        n = 3 * 84 - 5
+    if rule == "nested-datatypes":
+        case = {"layer": 4, "rule": rule, "n": n[0], "m": n[1]}
         n = 0
     if rule == "reflexive":
         case = {"layer": 4, "rule": rule, "n": 0, "api": n[0], "cls": n[1]}
@@ -736,6 +816,11 @@ def run(ctx) -> None:
         jobs.append(("l4", ("recut", sub)))
     for api in ("generic", "rdflib"):
         jobs.append(("l4", ("no-options", api)))
+        jobs.append(("l4", ("spellings", api)))
+        if api == "generic":
+            for nn in range(2, 9):
+                for mm in range(1, 8):
+                    jobs.append(("l4", ("nested-datatypes", (nn, mm))))
         for cls in ("triple", "quad"):
             jobs.append(("l4", ("reflexive", (api, cls))))
             for how in ("raise", "close"):
